@@ -85,29 +85,28 @@ theorem mu_decreases (cfg : Cfg α) (s s' : St α) (a : Act) (hs : step cfg s a 
     · rename_i hg
       simp only [Bool.and_eq_true, Bool.not_eq_true', decide_eq_true_eq] at hg
       obtain ⟨⟨_, hne⟩, hk⟩ := hg
+      cases hs
       have hlen : 0 < s.pending.length := by
         cases hp : s.pending with
         | nil => simp [hp] at hne
         | cons _ _ => simp
-      split at hs
-      · cases hs
-        simp only [mu, List.length_nil]
-        omega
-      · cases hs
-        simp only [mu, List.length_drop]
-        omega
+      simp only [mu, List.length_drop]
+      omega
     · cases hs
   | finish =>
     simp only [step] at hs
     split at hs
     · rename_i k q hcur hq
-      have hbase : ∀ (p : List α), p.length ≤ s.pending.length →
-          ((List.range' s.next (cfg.reqs.length - s.next)).map (fun k => 1 + jcost cfg k)).sum
-            + (q.map (jcost cfg)).sum + p.length < mu cfg s := by
-        intro p hp
-        simp only [mu, hcur, hq, List.tail_cons, pcost, List.map_nil, List.sum_nil]
+      cases hs
+      have hpl : ∀ (b : Bool), (if b = true then ([] : List α) else s.pending).length ≤ s.pending.length := by
+        intro b; cases b <;> simp
+      simp only [mu, hcur, hq, List.tail_cons, pcost, List.map_nil, List.sum_nil]
+      split
+      · rename_i r hr
+        have := hpl (r.close && !s.closed)
         omega
-      (repeat' split at hs) <;> (cases hs; simpa [mu] using hbase s.pending (Nat.le_refl _))
+      · have := hpl (false && !s.closed)
+        omega
     · cases hs
   | extClose => exact absurd rfl ha
 
